@@ -40,6 +40,7 @@ WIDTH = {f: (FIELDS[i + 1] - f if i + 1 < len(FIELDS) else 2) for i, f in enumer
 MODES = ['heuristic', 'thorough', 'exhaustive', 'strip']
 MODE_COQ = {'heuristic': 'Heuristic', 'thorough': 'Thorough', 'exhaustive': 'Exhaustive', 'strip': 'Strip'}
 model_jobs = []     # (label, term, checker)
+strip_modelled = {}
 
 # the environment the model assumes (not a property of /repo, but the tie would be void without it)
 if FIELDS != MODEL_FIELDS:
@@ -422,9 +423,11 @@ def segy_case(label, kind, dims, how_many, clean, blockshape=None, bpv=8, reduce
         R.count(f'{kind}:{mode}')
         R.count(f'4n mod 512 = {4 * (n if kind != "irregular" else shape[0] * shape[1]) % 512}')
         # ---- correspondence with the model
-        if a.no_model or hsize > 6000:
-            R.count('model_skipped_large')
+        if a.no_model or hsize > 6000 or (mode == 'strip' and strip_modelled.get(kind)):
+            R.count('model_skipped')
             continue
+        if mode == 'strip':
+            strip_modelled[kind] = True
         ndb = struct.unpack('<I', o['raw'][56:60])[0]
         bs = struct.unpack('<3I', o['raw'][44:56])
         if kind == 'regular' and 1 not in shape:
@@ -448,13 +451,11 @@ def segy_case(label, kind, dims, how_many, clean, blockshape=None, bpv=8, reduce
         chk5 = make_checker(inp, o, ts)
 
         def chk(val, chk5=chk5, extra=extra, inp=inp):
-            try:
-                f5, m1d = val
-            except Exception:
+            if not (isinstance(val, tuple) and len(val) == 6):       # Coq prints ((a, b, c, d, e), f) as a flat 6-tuple
                 R.violation('corr', inp, f'unparsable model value {str(val)[:200]}')
                 return
-            chk5(f5)
-            extra(m1d)
+            chk5(val[:5])
+            extra(val[5])
         model_jobs.append((inp, f'(let F := {F} in (fshow F {zlist(ts)}, map (t1dshow F) {zlist(fsel)}))', chk))
 
 
@@ -582,7 +583,7 @@ try:
         json.dump([[i, t] for i, t, _ in model_jobs], open(os.environ['C04_DUMP_TERMS'], 'w'))
     elif not a.no_model and model_jobs:
         try:
-            vals = coq_eval(['SZ.Lib.Py', 'SZ.Gen.Headers', 'SZ.Model.Headers'], [t for _, t, _ in model_jobs], shard=6, jobs=16,
+            vals = coq_eval(['SZ.Lib.Py', 'SZ.Gen.Headers', 'SZ.Model.Headers'], [t for _, t, _ in model_jobs], shard=8, jobs=16,
                             preamble=PREAMBLE)
             for (inp, _, chk), v in zip(model_jobs, vals):
                 chk(parse_value(v))
